@@ -305,6 +305,39 @@ fn cmd_tape(mode: &str, tape_f: &str, ops_f: &str) -> String {
     }
 }
 
+fn run_ops(tape_f: &str, ops_f: &str) -> BasicTape {
+    let mut t = tape_of_field(tape_f);
+    if !ops_f.is_empty() {
+        for o in ops_f.split(';') {
+            let f: Vec<&str> = o.split(',').collect();
+            t.step(f[0] == "1", f[1].parse().unwrap(), f[2] == "1");
+        }
+    }
+    t
+}
+
+// derived == and Hash on two tapes reached by two op sequences, plus what the cells say
+fn cmd_tapeeq(ta: &str, oa: &str, tb: &str, ob: &str) -> String {
+    use std::collections::hash_map::DefaultHasher;
+    use std::hash::{Hash, Hasher};
+    let a = run_ops(ta, oa);
+    let b = run_ops(tb, ob);
+    let hash = |t: &BasicTape| {
+        let mut h = DefaultHasher::new();
+        t.hash(&mut h);
+        h.finish()
+    };
+    format!(
+        "{}|{}|{} {}|{} {}",
+        b2s(a == b),
+        b2s(hash(&a) == hash(&b)),
+        field_of_tape(&a),
+        if unroll_small(&a) { unroll_sides(&a) } else { "big".to_string() },
+        field_of_tape(&b),
+        if unroll_small(&b) { unroll_sides(&b) } else { "big".to_string() },
+    )
+}
+
 fn cmd_rec(prog: &str, lim: &str) -> String {
     match machine::quick_term_or_rec(&CompProg::from_str(prog), lim.parse().unwrap()) {
         RecRes::Limit => "limit".to_string(),
@@ -422,6 +455,7 @@ fn cmd_aligns(f: &[&str]) -> String {
 fn dispatch(fields: &[&str]) -> String {
     match fields {
         ["tape", mode, tp, ops] => cmd_tape(mode, tp, ops),
+        ["tapeeq", ta, oa, tb, ob] => cmd_tapeeq(ta, oa, tb, ob),
         ["quick", prog, lim] => {
             field_of_mresult(&machine::run_quick_machine(prog, lim.parse().unwrap()))
         },
